@@ -8,7 +8,7 @@
    insertion ordered lists (an order-free representation: NoDup is the only invariant).
    first_err f l e : l = pre ++ x :: post, f succeeds on all of pre and f x = Err e. *)
 From Coq Require Import ZArith NArith List Bool.
-From CyVerif Require Import Lib.CInt Model.M_Convert Proof.P_Convert.
+From CyVerif Require Import Lib.CInt Model.M_Convert Proof.P_Convert Proof.P_ConvertStr.
 Import ListNotations.
 
 (* vector / std::list: C -> Python -> C is the identity, order preserved, for all element
@@ -113,7 +113,8 @@ Theorem C33_array_roundtrip : forall (X : Type) (fromX : pyval -> res X) (toX : 
 Proof. exact @arr_roundtrip. Qed.
 Print Assumptions C33_array_roundtrip.
 
-(* std::string: length based, NUL safe; the text codec law is a hypothesis (proved for ASCII) *)
+(* std::string: length based, NUL safe; the text codec law (hypothesis here) is proved below for
+   both encodings under which str objects are accepted: C33_ascii_codec_law, C33_utf8_codec_law *)
 Theorem C33_string_to_from : forall sc b v,
   (sc_type sc = SUnicode -> codec_law (sc_enc sc)) ->
   string_to_py sc (CBytes b) = Ok v -> string_from_py sc v = Ok (CBytes b).
@@ -194,6 +195,137 @@ Theorem C33_nested_roundtrip : forall sc,
   forall t c v, wf sc t c -> to_py sc t c = Ok v -> from_py sc t v = Ok c.
 Proof. exact to_from. Qed.
 Print Assumptions C33_nested_roundtrip.
+
+(* ---------- text: str <-> char* / unsigned char* / std::string under c_string_encoding ----------
+   PStr s: s is the list of code points of a CPython str object (PEP 393: kind_of / is_ascii are
+   functions of the largest code point).  unicode_asas lim E s models
+   __Pyx_PyUnicode_AsStringAndSize (lim: the Limited-API variant): Ok (buffer, *length) or the
+   exception raised.  encode_with E s is the specification, CPython's s.encode(E):
+   ascii = the code points themselves if all are below 128, utf8 = the RFC 3629 table (the C18
+   reference encoder) unless a surrogate occurs, UnicodeEncodeError otherwise. *)
+
+(* api: Full | Limited checked -- the full C-API text of the helper, and its Limited-API text
+   with (checked = true, proposed fix) or without (false, the code as it is) a NULL check after
+   PyUnicode_AsUTF8AndSize.  api_exact a e s := a = Limited false -> e = EAscii ->
+   exists b, utf8_encode s = Ok b (the unchecked text is only exact where that call succeeds). *)
+
+(* the helper IS s.encode(E) and *length is the number of BYTES -- all strings, both encodings under
+   which str is accepted *)
+Theorem C33_text_helper_is_encode : forall a e s, str_accepts_unicode e = true -> api_exact a e s ->
+  unicode_asas a e s = rmap (fun b => (b, length b)) (encode_with e s).
+Proof. exact asas_spec. Qed.
+Print Assumptions C33_text_helper_is_encode.
+
+(* full statement (no api_exact) is FALSE for the Limited-API text as it is: a lone surrogate under
+   ascii gives SystemError, not the codec's UnicodeEncodeError (finding limited_api_ascii_surrogate) *)
+Theorem C33_text_limited_unchecked_refuted :
+  exists s, unicode_asas (Limited false) EAscii s = Err SystemError /\
+            encode_with EAscii s = Err UnicodeEncodeError.
+Proof. exact asas_limited_refuted. Qed.
+Print Assumptions C33_text_limited_unchecked_refuted.
+
+Theorem C33_text_api_exact : forall a e s,
+  (a <> Limited false \/ forallb encodable s = true) -> api_exact a e s.
+Proof. intros a e s [H|H]; [apply api_sound_exact; exact H|apply api_exact_encodable; exact H]. Qed.
+Print Assumptions C33_text_api_exact.
+
+(* ascii decision: accepted iff every code point is below 128; then bytes = code points and
+   length = len(s); every other string raises UnicodeEncodeError (Latin-1 text included: a 1-byte
+   kind string need not be ASCII, C33_text_kind1_not_ascii) *)
+Theorem C33_text_ascii_decision : forall a s, api_exact a EAscii s ->
+  unicode_asas a EAscii s = if all_ascii s then Ok (s, length s) else Err UnicodeEncodeError.
+Proof. exact ascii_decision. Qed.
+Print Assumptions C33_text_ascii_decision.
+
+Theorem C33_text_ascii_flag : forall s, is_ascii s = all_ascii s.
+Proof. exact is_ascii_all. Qed.
+Print Assumptions C33_text_ascii_flag.
+
+Theorem C33_text_kind1_not_ascii : exists s, kind_of s = K1BYTE /\ is_ascii s = false.
+Proof. exact kind1_not_ascii. Qed.
+Print Assumptions C33_text_kind1_not_ascii.
+
+(* utf8 decision: accepted iff no lone surrogate; length = number of bytes; the bytes decode back
+   to the text (strict decoder); rejection is UnicodeEncodeError; every api variant *)
+Theorem C33_text_utf8_decision : forall a s,
+  (forall b n, unicode_asas a EUtf8 s = Ok (b, n) ->
+     n = length b /\ utf8_decode b = Ok s /\ forallb encodable s = true) /\
+  (forall x, unicode_asas a EUtf8 s = Err x ->
+     x = UnicodeEncodeError /\ exists c, In c s /\ encodable c = false).
+Proof. exact utf8_decision. Qed.
+Print Assumptions C33_text_utf8_decision.
+
+(* decode (encode s) = s for every string the codec accepts, and rejection exactly on surrogates *)
+Theorem C33_utf8_decode_encode : forall s b, utf8_encode s = Ok b -> utf8_decode b = Ok s.
+Proof. exact utf8_decode_encode. Qed.
+Print Assumptions C33_utf8_decode_encode.
+
+Theorem C33_utf8_encode_rejects : forall s e,
+  utf8_encode s = Err e <-> e = UnicodeEncodeError /\ exists c, In c s /\ encodable c = false.
+Proof. exact utf8_encode_rejects. Qed.
+Print Assumptions C33_utf8_encode_rejects.
+
+(* encode (decode b) = b for every byte string the strict decoder accepts: the codec law of
+   C33_string_to_from / C33_nested_roundtrip for utf8 *)
+Theorem C33_utf8_codec_law : codec_law EUtf8.
+Proof. exact utf8_codec_law. Qed.
+Print Assumptions C33_utf8_codec_law.
+
+(* def f(string x): return x on a str argument, c_string_type=str: the text itself (embedded NULs
+   kept) or UnicodeEncodeError, nothing else *)
+Theorem C33_string_str_roundtrip : forall a sc s, api_exact a (sc_enc sc) s ->
+  sc_type sc = SUnicode -> str_accepts_unicode (sc_enc sc) = true ->
+  string_roundtrip_l a sc (PStr s) =
+    match encode_with (sc_enc sc) s with Ok _ => Ok (PStr s) | Err _ => Err UnicodeEncodeError end.
+Proof. exact string_str_roundtrip. Qed.
+Print Assumptions C33_string_str_roundtrip.
+
+(* every c_string_type: the result is from_string_and_size (s.encode(E)) *)
+Theorem C33_string_of_str : forall a sc s, api_exact a (sc_enc sc) s ->
+  string_roundtrip_l a sc (PStr s) = bind (encode_with (sc_enc sc) s) (from_string_and_size sc).
+Proof. exact string_bytes_of_str. Qed.
+Print Assumptions C33_string_of_str.
+
+(* char* / unsigned char*: the same bytes cut at the first NUL; exact on NUL-free text *)
+Theorem C33_charp_of_str : forall a sc s, api_exact a (sc_enc sc) s ->
+  charp_roundtrip_l a sc (PStr s) =
+    bind (encode_with (sc_enc sc) s) (fun b => from_string_and_size sc (until_nul b)).
+Proof. exact charp_of_str. Qed.
+Print Assumptions C33_charp_of_str.
+
+Theorem C33_charp_str_roundtrip : forall a sc s, api_exact a (sc_enc sc) s ->
+  sc_type sc = SUnicode -> str_accepts_unicode (sc_enc sc) = true -> ~ In 0%N s ->
+  charp_roundtrip_l a sc (PStr s) =
+    match encode_with (sc_enc sc) s with Ok _ => Ok (PStr s) | Err _ => Err UnicodeEncodeError end.
+Proof. exact charp_str_roundtrip. Qed.
+Print Assumptions C33_charp_str_roundtrip.
+
+(* the Limited-API text of the helper (post-check of the two lengths) is observably the same *)
+Theorem C33_limited_api_agrees : forall a sc v,
+  (forall s, v = PStr s -> api_exact a (sc_enc sc) s) ->
+  as_string_and_size_l a sc v = as_string_and_size_l Full sc v /\
+  charp_from_py_l a sc v = charp_from_py_l Full sc v.
+Proof. exact limited_api_agrees. Qed.
+Print Assumptions C33_limited_api_agrees.
+
+(* nested types (char* members included, on NUL-free buffers) with the codec hypothesis discharged:
+   every configuration the compiler accepts except c_string_type=str with a third encoding *)
+Theorem C33_nested_roundtrip_closed : forall sc,
+  (sc_type sc = SUnicode -> str_accepts_unicode (sc_enc sc) = true) ->
+  forall t c v, wf sc t c -> to_py sc t c = Ok v -> from_py sc t v = Ok c.
+Proof. exact to_from_closed. Qed.
+Print Assumptions C33_nested_roundtrip_closed.
+
+(* non-vacuity of the text theorems: a Latin-1 string (1-byte kind, not ASCII) is refused under
+   ascii and converted under utf8 with length 3 for 2 characters; an astral one round-trips *)
+Example C33_text_nonvacuous :
+  kind_of [104; 233]%N = K1BYTE /\
+  unicode_asas Full EAscii [104; 233]%N = Err UnicodeEncodeError /\
+  unicode_asas Full EUtf8 [104; 233]%N = Ok ([104; 195; 169]%N, 3%nat) /\
+  string_roundtrip {| sc_type := SUnicode; sc_enc := EUtf8 |} (PStr [0; 128512; 8364]%N)
+    = Ok (PStr [0; 128512; 8364]%N) /\
+  unicode_asas (Limited true) EAscii [97; 55296]%N = Err UnicodeEncodeError.
+Proof. repeat split; vm_compute; reflexivity. Qed.
 
 (* non-vacuity: the element law holds for a concrete nested type and value *)
 Example C33_nonvacuous :
